@@ -675,7 +675,9 @@ func (s *v4Server) reserveLease(mac net.HardwareAddr) (l *dhcpsvc.Lease, err err
 			return nil, nil
 		}
 
-		copy(s.leases[i].HWAddr, mac)
+		// Don't copy into the old slice, since the hardware addresses may be of
+		// different lengths.
+		s.leases[i].HWAddr = slices.Clone(mac)
 
 		return s.leases[i], nil
 	}
